@@ -655,6 +655,9 @@ func exec(c px.Context, op string, args []sx.Sexp) (r core.Result) {
 					cl = "anon-struct-nested"
 				}
 				r = core.Result{Out: "derive=" + k, Pred: oneLine("FAIL " + cl + " derive type: " + text), NonTrivial: true}
+				if cl == "fault" && regFailClass(t, k, text) == "n/a" {
+					r.Pred = "n/a" // the tags are inconsistent in themselves: a reported error is the answer
+				}
 				if notReflectable(t) != "" {
 					r.Pred = "n/a"
 				}
@@ -704,7 +707,7 @@ func refl(c px.Context, t *gty, ve sx.Sexp, register bool) core.Result {
 			if r := notReflectable(t); r != "" {
 				return core.Result{Out: "register=" + k, Pred: "n/a", NonTrivial: true}
 			}
-			return core.Fail("register="+k, regFailClass(t, text), oneLine(text))
+			return core.Result{Out: "register=" + k, Pred: oneLine(regFailPred(t, k, text)), NonTrivial: true}
 		}
 	}
 	tags := []string{"k:" + t.kind}
@@ -826,12 +829,62 @@ func ancestorTypes(c px.Context, t *gty) []px.Type {
 	return ats
 }
 
-// regFailClass names the reason the object type of some struct type in t cannot be derived
-func regFailClass(t *gty, text string) string {
-	if strings.Contains(text, "attempts to override") && attrClash(t) {
+// regFailClass names the reason the object type of some struct type in t cannot be derived; "n/a" when the derivation reports
+// an inconsistency the tags themselves declare (a default that is not an instance of the declared type, an Optional type on
+// a field that cannot be nil, a value on a derived attribute, a constant without a value): a reported error is the answer
+func regFailClass(t *gty, k string, text string) string {
+	if (strings.Contains(text, "attempts to override") || k == "reported PCORE_OVERRIDE_OF_FINAL") && attrClash(t) {
 		return "embed-attribute-clash"
 	}
+	if k == "reported PCORE_ILLEGAL_KIND_VALUE_COMBINATION" && givenOrDerivedNilable(t) {
+		return "given-or-derived-on-pointer"
+	}
+	switch k {
+	case "reported PCORE_IMPOSSIBLE_OPTIONAL", "reported PCORE_ILLEGAL_KIND_VALUE_COMBINATION", "reported PCORE_TYPE_MISMATCH",
+		"reported PCORE_CONSTANT_REQUIRES_VALUE":
+		if hasTagKey(t, "value") || hasTagKey(t, "type") || hasTagKey(t, "kind") {
+			return "n/a"
+		}
+	}
 	return "struct-type-fault"
+}
+
+func regFailPred(t *gty, k string, text string) string {
+	if cl := regFailClass(t, k, text); cl != "n/a" {
+		return "FAIL " + cl + " " + text
+	}
+	return "n/a"
+}
+
+// hasTagKey: some struct field inside t carries the tag item key=>…
+func hasTagKey(t *gty, key string) bool {
+	if t == nil {
+		return false
+	}
+	for _, f := range t.fields {
+		if tagItem(f.tag, key) != "" || hasTagKey(f.t, key) {
+			return true
+		}
+	}
+	return hasTagKey(t.key, key) || hasTagKey(t.elem, key)
+}
+
+// givenOrDerivedNilable: some field is tagged kind=>given_or_derived without a value of its own and has an Optional type (a
+// pointer, or type=>Optional[…]): ReflectFieldTags adds the implicit `value => undef`, which the attribute then refuses
+func givenOrDerivedNilable(t *gty) bool {
+	if t == nil {
+		return false
+	}
+	for _, f := range t.fields {
+		if (tagItem(f.tag, "kind") == "given_or_derived" || tagItem(f.tag, "kind") == "derived") && tagItem(f.tag, "value") == "" &&
+			(strings.HasPrefix(tagItem(f.tag, "type"), "Optional[") || (tagItem(f.tag, "type") == "" && f.t.kind == "ptr")) {
+			return true
+		}
+		if givenOrDerivedNilable(f.t) {
+			return true
+		}
+	}
+	return givenOrDerivedNilable(t.key) || givenOrDerivedNilable(t.elem)
 }
 
 // attrClash: some struct type in t declares an attribute that one of its embedded parents (first field) declares too
@@ -854,6 +907,35 @@ func attrClash(t *gty) bool {
 		}
 	}
 	return attrClash(t.key) || attrClash(t.elem)
+}
+
+type fieldVal struct {
+	f gfield
+	v reflect.Value
+}
+
+// attrFieldVals: the fields that are attributes of the derived object type with their values: the embedded parent's (first
+// field), then the own
+func attrFieldVals(t *gty, v reflect.Value) []fieldVal {
+	out := []fieldVal{}
+	for i, f := range t.fields {
+		if i == 0 && f.anon && f.t.kind == "struct" {
+			out = append(out, attrFieldVals(f.t, v.Field(0))...)
+			continue
+		}
+		out = append(out, fieldVal{f, v.Field(i)})
+	}
+	return out
+}
+
+// unstoredNonZero: some attribute of kind constant / derived (also of an embedded parent) holds a value other than the zero value
+func unstoredNonZero(t *gty, v reflect.Value) bool {
+	for _, fv := range attrFieldVals(t, v) {
+		if k := tagItem(fv.f.tag, "kind"); (k == "constant" || k == "derived") && !fv.v.IsZero() {
+			return true
+		}
+	}
+	return false
 }
 
 // embeddedPtrParent: the struct's first field is an embedded POINTER to a struct that is not nil in v: the reflector takes
@@ -1138,7 +1220,7 @@ func obj(c px.Context, t *gty, ve sx.Sexp) core.Result {
 		if r := notReflectable(t); r != "" {
 			return res("register="+k, "n/a")
 		}
-		return res("register="+k, "FAIL "+regFailClass(t, text)+" "+text)
+		return res("register="+k, regFailPred(t, k, text))
 	}
 	ot := seen[rt]
 	// struct → object → init hash
@@ -1204,11 +1286,15 @@ func obj(c px.Context, t *gty, ve sx.Sexp) core.Result {
 			out += " | " + names[vi] + "=" + nk
 			if pred == "ok" {
 				pred = "FAIL obj-new-fault New: " + ntext
-				for i, f := range t.fields {
-					if cl := instCause(f.t, gv.Field(i), false, false); cl != "" {
+				for _, fv := range attrFieldVals(t, gv) {
+					if cl := instCause(fv.f.t, fv.v, false, false); cl != "" {
 						pred = "FAIL " + cl + " New: " + ntext
 						break
 					}
+				}
+				if hasTagKey(t, "type") && nk == "reported PCORE_ILLEGAL_ARGUMENTS" {
+					// the tag declares the attribute's type itself: a field value that type does not accept is outside the quantifier
+					pred = "n/a"
 				}
 			}
 			continue
@@ -1233,6 +1319,12 @@ func obj(c px.Context, t *gty, ve sx.Sexp) core.Result {
 				cl = "embedded-ptr-parent-dropped"
 			}
 			pred = "FAIL " + cl + " " + encGo(t, gv) + " came back as " + encGo(t, back)
+			if unstoredNonZero(t, gv) {
+				// a field tagged kind=>constant / derived is by declaration not part of an instance's state: setValues never
+				// touches it, so only its zero value can come back — outside the quantifier
+				pred = "n/a"
+				tags = append(tags, "unstored-kind")
+			}
 		}
 	}
 	if na {
@@ -1389,7 +1481,51 @@ func litFits(t *gty, l tagLit) bool {
 	return false
 }
 
-// tagInModel: `puppet:"ITEM, ITEM"` with ITEM ::= name=>'chars' | value=>LIT, each at most once
+// parseTTy: a type of a `type=>` tag item in the form the driver reads (lean/Driver/C18.lean ttyP) —
+//	T ::= Integer | Integer[lo,hi] | Float | String | Boolean | Any | Optional[T] | Array[T] | Hash[T,T]
+func parseTTy(s string) (rest string, ok bool) {
+	i := 0
+	for i < len(s) && (s[i] >= 'A' && s[i] <= 'Z' || s[i] >= 'a' && s[i] <= 'z') {
+		i++
+	}
+	name, r := s[:i], s[i:]
+	switch name {
+	case "Integer":
+		if m := intRange.FindString(r); m != "" {
+			return r[len(m):], true
+		}
+		return r, !strings.HasPrefix(r, "[")
+	case "Float", "String", "Boolean", "Any":
+		return r, !strings.HasPrefix(r, "[")
+	case "Optional", "Array":
+		if !strings.HasPrefix(r, "[") {
+			return r, false
+		}
+		r2, ok := parseTTy(r[1:])
+		if !ok || !strings.HasPrefix(r2, "]") {
+			return r, false
+		}
+		return r2[1:], true
+	case "Hash":
+		if !strings.HasPrefix(r, "[") {
+			return r, false
+		}
+		r2, ok := parseTTy(r[1:])
+		if !ok || !strings.HasPrefix(r2, ",") {
+			return r, false
+		}
+		r3, ok := parseTTy(r2[1:])
+		if !ok || !strings.HasPrefix(r3, "]") {
+			return r, false
+		}
+		return r3[1:], true
+	}
+	return s, false
+}
+
+var intRange = regexp.MustCompile(`^\[-?[0-9]{1,18},-?[0-9]{1,18}\]`)
+
+// tagInModel: `puppet:"ITEM, ITEM"` with ITEM ::= name=>'chars' | value=>LIT | type=>T | kind=>K, each at most once
 func tagInModel(tag string) bool {
 	if !strings.HasPrefix(tag, `puppet:"`) || !strings.HasSuffix(tag, `"`) || len(tag) < 10 {
 		return false
@@ -1407,6 +1543,18 @@ func tagInModel(tag string) bool {
 		case strings.HasPrefix(item, "value=>"):
 			key = "value"
 			if _, r, ok := parseLit(item[7:]); !ok || r != "" {
+				return false
+			}
+		case strings.HasPrefix(item, "type=>"):
+			key = "type"
+			if r, ok := parseTTy(item[6:]); !ok || r != "" {
+				return false
+			}
+		case strings.HasPrefix(item, "kind=>"):
+			key = "kind"
+			switch item[6:] {
+			case "constant", "derived", "given_or_derived", "reference":
+			default:
 				return false
 			}
 		default:
@@ -1437,12 +1585,14 @@ func structsInModel(t *gty) bool {
 		if f.tag != "" && !tagInModel(f.tag) {
 			return false
 		}
-		if v := tagItem(f.tag, "value"); v != "" && !dfltInModel(f.t, v) {
-			return false
-		}
 	}
+	// own attribute names distinct (a clash with an attribute of the embedded parent is a derivation error the model reports)
 	names, goNames := map[string]bool{}, map[string]bool{}
-	for _, f := range attrFields(t) {
+	own := t.fields
+	if len(own) > 0 && own[0].anon && own[0].t.kind == "struct" {
+		own = own[1:]
+	}
+	for _, f := range own {
 		if names[attrNameOf(f)] {
 			return false
 		}
@@ -1584,7 +1734,7 @@ func objreg(c px.Context, t *gty, ve sx.Sexp) core.Result {
 		if na {
 			return res("declare="+k, "n/a")
 		}
-		return res("declare="+k, "FAIL struct-type-fault "+text)
+		return res("declare="+k, regFailPred(t, k, text))
 	}
 	pt := seen[rt]
 	// every struct value inside the value goes through FromReflectedValue / ToReflectedValue of its own type
@@ -1874,6 +2024,9 @@ func genVal(r *rand.Rand, t *gty, mode int, depth int) string {
 	xs := []string{"st"}
 	for _, f := range t.fields {
 		switch {
+		case (tagItem(f.tag, "kind") == "constant" || tagItem(f.tag, "kind") == "derived") && r.Intn(4) != 0:
+			// an attribute that is not part of an instance's state: mostly the Go zero value (the only one that can come back)
+			xs = append(xs, genVal(r, f.t, 0, depth+1))
 		case f.dflt != "" && (mode == 5 || (mode >= 3 && r.Intn(2) == 0)):
 			xs = append(xs, f.dflt)
 		case mode == 5 && f.t.kind == "ptr":
@@ -1955,6 +2108,47 @@ func tagDefault(r *rand.Rand, t *gty) (lit string, term string) {
 	}
 	return "", ""
 }
+
+// tagTypes: the types the generator declares (type=>) for a field of Go type t: the one pcore derives, wider and narrower
+// ones, Any, and one that does not fit the Go type at all ("" = none for this shape)
+func tagTypes(t *gty) []string {
+	switch t.kind {
+	case "int", "uint":
+		return []string{"Integer", "Integer[0,10]", "Integer[-128,127]", "Integer[-5,5]", "Any", "String"}
+	case "float":
+		return []string{"Float", "Any", "Integer"}
+	case "string":
+		return []string{"String", "Any", "Boolean"}
+	case "bool":
+		return []string{"Boolean", "Any", "Float"}
+	case "slice", "array":
+		out := []string{"Any"}
+		for _, e := range tagTypes(t.elem) {
+			out = append(out, "Array["+e+"]")
+		}
+		return out
+	case "map":
+		out := []string{"Any"}
+		if t.key.kind == "string" {
+			for _, e := range tagTypes(t.elem) {
+				out = append(out, "Hash[String,"+e+"]")
+			}
+		}
+		return out
+	case "ptr":
+		out := []string{"Any"}
+		for _, e := range tagTypes(t.elem) {
+			out = append(out, "Optional["+e+"]")
+		}
+		if es := tagTypes(t.elem); len(es) > 0 {
+			out = append(out, es[0]) // not Optional although the field can be nil
+		}
+		return out
+	}
+	return nil
+}
+
+var tagKinds = []string{"constant", "derived", "given_or_derived", "reference"}
 
 // scalarDefaults: the defaults (literal, go-value term) the generator declares for a scalar field type
 func scalarDefaults(t *gty) [][2]string {
@@ -2084,18 +2278,22 @@ func gen(g *core.G) {
 				pre = ""
 			}
 			g.Emit(pre + "refl " + t.sexp().String() + " " + v)
+			// the three implementation-only variants below read only the tag items name / value
+			plainTags := !hasTagKey(t, "type") && !hasTagKey(t, "kind")
 			if t.kind == "struct" {
-				g.Emit("@objreg " + t.sexp().String() + " " + v)
+				if plainTags {
+					g.Emit("@objreg " + t.sexp().String() + " " + v)
+				}
 				if len(t.fields) > 0 {
 					g.Emit(pre + "obj " + t.sexp().String() + " " + v)
 				} else {
 					g.Emit("@obj " + t.sexp().String() + " " + v)
 				}
 			}
-			if nraw++; nraw%10 == 0 {
+			if nraw++; nraw%10 == 0 && plainTags {
 				g.Emit("@reflraw " + t.sexp().String() + " " + v)
 			}
-			if nraw%4 == 1 {
+			if nraw%4 == 1 && plainTags {
 				g.Emit("@reflanon " + t.sexp().String() + " " + v)
 			}
 			return
@@ -2231,6 +2429,61 @@ func gen(g *core.G) {
 		U := &gty{kind: "struct", fields: []gfield{{name: "A", t: &gty{kind: "ptr", elem: e}, tag: "puppet:\"value=>undef\""}, {name: "B", t: e}}}
 		emit(U, "(st nil "+zero+")")
 		emit(U, "(st (p "+other+") "+other+")")
+		// declared types and kinds: struct{A e "type=>T"; B *e "type=>T'"} for every type the generator knows for e;
+		// struct{A e "kind=>K[, value=>d]"; B string; C *e "kind=>K"} for every kind — at the zero value and at another value
+		pe := &gty{kind: "ptr", elem: e}
+		d0 := scalarDefaults(e)[0]
+		for ti, T := range tagTypes(e) {
+			pts := tagTypes(pe)
+			S := &gty{kind: "struct", fields: []gfield{{name: "A", t: e, tag: "puppet:\"type=>" + T + "\""},
+				{name: "B", t: pe, tag: "puppet:\"type=>" + pts[ti%len(pts)] + "\""}}}
+			emit(S, "(st "+zero+" nil)")
+			emit(S, "(st "+other+" (p "+other+"))")
+			emit(S, "(st "+d0[1]+" (p "+zero+"))")
+		}
+		for _, K := range tagKinds {
+			vt := ""
+			if K == "constant" || K == "reference" {
+				vt = ", value=>" + d0[0]
+			}
+			S := &gty{kind: "struct", fields: []gfield{{name: "A", t: e, tag: "puppet:\"kind=>" + K + vt + "\""}, {name: "B", t: &gty{kind: "string"}}}}
+			emit(S, "(st "+zero+" x61)")
+			emit(S, "(st "+other+" x)")
+			emit(S, "(st "+d0[1]+" x6162)")
+			P := &gty{kind: "struct", fields: []gfield{{name: "B", t: &gty{kind: "string"}}, {name: "C", t: pe, tag: "puppet:\"kind=>" + K + "\""}}}
+			emit(P, "(st x61 nil)")
+			emit(P, "(st x (p "+other+"))")
+			if K == "constant" || K == "derived" {
+				// a constant / derived attribute in the embedded parent
+				emit(&gty{kind: "struct", fields: []gfield{{name: "Base", anon: true, t: &gty{kind: "struct", fields: []gfield{{name: "PA", t: e, tag: "puppet:\"kind=>" + K + vt + "\""}, {name: "PB", t: e}}}}, {name: "B", t: &gty{kind: "string"}}}},
+					"(st (st "+zero+" "+other+") x61)")
+			}
+		}
+	}
+	// tags that are inconsistent in themselves (derivation errors), one of each
+	{
+		i8, str := &gty{kind: "int", w: 8}, &gty{kind: "string"}
+		one := func(ft *gty, tag string, v string) {
+			emit(&gty{kind: "struct", fields: []gfield{{name: "A", t: ft, tag: "puppet:\"" + tag + "\""}, {name: "B", t: str}}}, "(st "+v+" x61)")
+		}
+		one(i8, "value=>undef", "0")
+		one(i8, "value=>'x'", "0")
+		one(i8, "value=>300", "0")
+		one(str, "type=>Optional[String]", "x")
+		one(i8, "kind=>constant", "0")
+		one(i8, "kind=>derived, value=>3", "0")
+		one(i8, "kind=>given_or_derived, value=>3", "0")
+		one(i8, "type=>Integer[0,10], value=>11", "0")
+		one(i8, "type=>Integer[0,10], value=>10", "11")
+		one(&gty{kind: "float", w: 64}, "value=>1", "0")
+		// two errors in one struct: the first field in order that has one wins; ImpossibleOptional comes before all others
+		emit(&gty{kind: "struct", fields: []gfield{{name: "A", t: i8, tag: `puppet:"kind=>constant"`}, {name: "B", t: i8, tag: `puppet:"value=>undef"`}}}, "(st 0 0)")
+		emit(&gty{kind: "struct", fields: []gfield{{name: "A", t: i8, tag: `puppet:"value=>'x'"`}, {name: "B", t: i8, tag: `puppet:"kind=>constant"`}}}, "(st 0 0)")
+		// a clash by tag name with an attribute of the embedded parent (also with a constant one: final)
+		base := &gty{kind: "struct", fields: []gfield{{name: "PA", t: i8}, {name: "PC", t: i8, tag: `puppet:"kind=>constant, value=>5"`}}}
+		emit(&gty{kind: "struct", fields: []gfield{{name: "Base", anon: true, t: base}, {name: "B", t: str, tag: `puppet:"name=>'pA'"`}}}, "(st (st 5 0) x61)")
+		emit(&gty{kind: "struct", fields: []gfield{{name: "Base", anon: true, t: base}, {name: "B", t: str, tag: `puppet:"name=>'pC'"`}}}, "(st (st 5 0) x61)")
+		emit(&gty{kind: "struct", fields: []gfield{{name: "Base", anon: true, t: base}, {name: "B", t: i8, tag: `puppet:"name=>'pC', kind=>constant, value=>1"`}}}, "(st (st 5 0) 0)")
 	}
 	// embedding outside the model (implementation only): a field that shadows a field of the embedded parent; an embedded
 	// pointer to a struct in the first position
@@ -2295,6 +2548,14 @@ func gen(g *core.G) {
 					parts = append(parts, "value=>"+lit)
 					f.dflt = term
 				}
+			}
+			if i%4 == 3 && g.Rng.Intn(3) == 0 {
+				if ts := tagTypes(f.t); len(ts) > 0 {
+					parts = append(parts, "type=>"+ts[g.Rng.Intn(len(ts))])
+				}
+			}
+			if i%4 == 3 && g.Rng.Intn(4) == 0 {
+				parts = append(parts, "kind=>"+tagKinds[g.Rng.Intn(len(tagKinds))])
 			}
 			if len(parts) > 0 {
 				f.tag = "puppet:\"" + strings.Join(parts, ", ") + "\""
